@@ -126,6 +126,8 @@ Record code_ok (c : code) : Prop := {
   ok_quick : c_quick c = [LoadSaved; ResetBest];
   ok_susp : c_boot_suspends c = true;
   ok_rest : c_boot_restores c = true;
+  ok_abort_resumes : c_abort_resumes c = true;
+  ok_abort_restores : c_abort_restores c = true;
 }.
 
 Lemma the_code_ok : code_ok the_code.
@@ -139,6 +141,8 @@ Proof.
   - reflexivity.
   - intros n t. unfold gen_line. rewrite !append_assoc. reflexivity.
   - intros a w Hw. unfold gen_parse. rewrite (rsplit1_last _ a w Hw). reflexivity.
+  - reflexivity.
+  - reflexivity.
   - reflexivity.
   - reflexivity.
   - reflexivity.
@@ -375,7 +379,7 @@ Section Thm.
     cf_save val cfg = true -> f_not_nan val o -> Inv s sp -> Inv (step s o) (spec_step sp o).
   Proof.
     intros Hsave Hnn. destruct sp as [l ib]. intros (Hs & Ho & Hl & Hb0 & Hb1). simpl in *.
-    destruct o as [| |x f g| | |x f g k|].
+    destruct o as [| |x f g| | |x f g k| |].
     - (* EstimateStart *)
       destruct (start_effect s EstimateStart (or_introl eq_refl)) as (_ & B & S & O).
       unfold Inv; cbn [Iter.spec_step fst snd]. rewrite B, S, O. repeat split; auto. congruence.
@@ -436,6 +440,9 @@ Section Thm.
       unfold Inv, Iter.step; simpl. destruct (len_ok x); [destruct (save_plan _ _ _ _ _ _ _ _)|];
         simpl; repeat split; auto; try discriminate; congruence.
     - unfold Inv; simpl. repeat split; auto; try discriminate; congruence.
+    - (* BootstrapAbort *)
+      unfold Inv; simpl. rewrite (ok_abort_resumes c OK), (ok_abort_restores c OK). simpl.
+      repeat split; auto; try discriminate.
   Qed.
 
   Lemma inv_run h : forall s sp,
@@ -502,7 +509,7 @@ Section Thm.
                                absent_or_complete d0 (hx ++ evaluated val [o]) d').
     { intros d' E. apply (aoc_mono d0 hx); [apply incl_appl, incl_refl|].
       destruct H as [H | (x & L & H & Hx)]; [left; congruence|right; exists x; rewrite E; auto]. }
-    destruct o as [| |x f g| | |x f g k|].
+    destruct o as [| |x f g| | |x f g k| |].
     - apply Hsame. destruct (start_effect s EstimateStart (or_introl eq_refl)) as (F & _). rewrite F. reflexivity.
     - apply Hsame. destruct (start_effect s QuickStart (or_intror eq_refl)) as (F & _). rewrite F. reflexivity.
     - destruct (eval_effect s x f g) as (_ & _ & _ & [(F & _) | (G & F & _)]).
@@ -519,6 +526,7 @@ Section Thm.
       simpl. destruct (write_prefix (st_fs val s) x k) as [E | E].
       + apply Hsame. exact E.
       + right. exists x. split; [exact L|]. split; [exact E|]. left. apply in_or_app. right. simpl. auto.
+    - apply Hsame. reflexivity.
     - apply Hsame. reflexivity.
   Qed.
 
@@ -590,7 +598,7 @@ Section Thm.
   Proof.
     induction h as [|o h IH]; intros s H; [exact H|].
     change (run s (o :: h)) with (run (step s o) h). apply IH.
-    destruct o as [| |x f g| | |x f g k|].
+    destruct o as [| |x f g| | |x f g k| |].
     - destruct (start_effect s EstimateStart (or_introl eq_refl)) as (_ & _ & S & O). rewrite S, O. exact H.
     - destruct (start_effect s QuickStart (or_intror eq_refl)) as (_ & _ & S & O). rewrite S, O. exact H.
     - destruct (eval_effect s x f g) as (S & O & _). rewrite S, O. exact H.
@@ -598,6 +606,7 @@ Section Thm.
     - simpl. rewrite (ok_rest c OK). discriminate.
     - unfold Iter.step. destruct (len_ok x); [destruct (save_plan _ _ _ _ _ _ _ _)|]; simpl; discriminate.
     - simpl. discriminate.
+    - simpl. rewrite (ok_abort_restores c OK). discriminate.
   Qed.
 
   (* the shape of a complete file: one line `name = str(value)` per free parameter, in the
@@ -757,27 +766,38 @@ Definition with_steps (c : code) (st : string -> list string -> list fsop) : cod
   {| c_file_name := c_file_name c; c_guard := c_guard c; c_mark0 := c_mark0 c; c_test := c_test c;
      c_mark1 := c_mark1 c; c_steps := st; c_line := c_line c; c_parse := c_parse c;
      c_estimate := c_estimate c; c_quick := c_quick c;
-     c_boot_suspends := c_boot_suspends c; c_boot_restores := c_boot_restores c |}.
+     c_boot_suspends := c_boot_suspends c; c_boot_restores := c_boot_restores c;
+     c_abort_resumes := c_abort_resumes c; c_abort_restores := c_abort_restores c |}.
 Definition with_mark1 (c : code) (m : option fval -> fval -> option fval) : code :=
   {| c_file_name := c_file_name c; c_guard := c_guard c; c_mark0 := c_mark0 c; c_test := c_test c;
      c_mark1 := m; c_steps := c_steps c; c_line := c_line c; c_parse := c_parse c;
      c_estimate := c_estimate c; c_quick := c_quick c;
-     c_boot_suspends := c_boot_suspends c; c_boot_restores := c_boot_restores c |}.
+     c_boot_suspends := c_boot_suspends c; c_boot_restores := c_boot_restores c;
+     c_abort_resumes := c_abort_resumes c; c_abort_restores := c_abort_restores c |}.
 Definition with_parse (c : code) (p : string -> option (string * string)) : code :=
   {| c_file_name := c_file_name c; c_guard := c_guard c; c_mark0 := c_mark0 c; c_test := c_test c;
      c_mark1 := c_mark1 c; c_steps := c_steps c; c_line := c_line c; c_parse := p;
      c_estimate := c_estimate c; c_quick := c_quick c;
-     c_boot_suspends := c_boot_suspends c; c_boot_restores := c_boot_restores c |}.
+     c_boot_suspends := c_boot_suspends c; c_boot_restores := c_boot_restores c;
+     c_abort_resumes := c_abort_resumes c; c_abort_restores := c_abort_restores c |}.
 Definition with_quick (c : code) (q : list startop) : code :=
   {| c_file_name := c_file_name c; c_guard := c_guard c; c_mark0 := c_mark0 c; c_test := c_test c;
      c_mark1 := c_mark1 c; c_steps := c_steps c; c_line := c_line c; c_parse := c_parse c;
      c_estimate := c_estimate c; c_quick := q;
-     c_boot_suspends := c_boot_suspends c; c_boot_restores := c_boot_restores c |}.
+     c_boot_suspends := c_boot_suspends c; c_boot_restores := c_boot_restores c;
+     c_abort_resumes := c_abort_resumes c; c_abort_restores := c_abort_restores c |}.
+Definition with_abort (c : code) (su re : bool) : code :=
+  {| c_file_name := c_file_name c; c_guard := c_guard c; c_mark0 := c_mark0 c; c_test := c_test c;
+     c_mark1 := c_mark1 c; c_steps := c_steps c; c_line := c_line c; c_parse := c_parse c;
+     c_estimate := c_estimate c; c_quick := c_quick c;
+     c_boot_suspends := c_boot_suspends c; c_boot_restores := c_boot_restores c;
+     c_abort_resumes := su; c_abort_restores := re |}.
 Definition with_boot (c : code) (su re : bool) : code :=
   {| c_file_name := c_file_name c; c_guard := c_guard c; c_mark0 := c_mark0 c; c_test := c_test c;
      c_mark1 := c_mark1 c; c_steps := c_steps c; c_line := c_line c; c_parse := c_parse c;
      c_estimate := c_estimate c; c_quick := c_quick c;
-     c_boot_suspends := su; c_boot_restores := re |}.
+     c_boot_suspends := su; c_boot_restores := re;
+     c_abort_resumes := c_abort_resumes c; c_abort_restores := c_abort_restores c |}.
 
 Definition old_file : fs := upd empty_fs "__m.iter" (Some (tcontent the_code cfg2 ["1.5"; "2.5"]%string)).
 
@@ -900,4 +920,17 @@ Theorem bootstrap_data_not_restored_refuted :
   st_other string s = true /\ st_susp string s = false /\
   st_fs string (tstep c0 cfg2 s (Eval ["0.9"; "2.1"]%string (FFin 7) true)) "__m.iter"%string
   = Some (tcontent c0 cfg2 ["0.9"; "2.1"]%string).
+Proof. vm_compute. repeat split; reflexivity. Qed.
+
+(* --- the estimation data put back AFTER the loop instead of in its `finally` clause: a loop left
+       by an exception (Ctrl-C, an error on a resample) leaves saving enabled on resampled data *)
+Theorem abort_data_not_restored_refuted :
+  let c0 := with_abort the_code true false in
+  let h := [EstimateStart; BootstrapBegin; Eval ["0.9"; "2.0"]%string (FFin 3) true; BootstrapAbort] in
+  let s := trun c0 cfg2 (tfresh cfg2 old_file) h in
+  st_other string s = true /\ st_susp string s = false /\
+  st_fs string (tstep c0 cfg2 s (Eval ["0.9"; "2.1"]%string (FFin 7) true)) "__m.iter"%string
+  = Some (tcontent c0 cfg2 ["0.9"; "2.1"]%string) /\
+  st_other string (trun the_code cfg2 (tfresh cfg2 old_file) h) = false /\
+  st_susp string (trun the_code cfg2 (tfresh cfg2 old_file) h) = false.
 Proof. vm_compute. repeat split; reflexivity. Qed.
